@@ -61,6 +61,14 @@ tree with the fix: the presence-clear change is built from the initial lamport a
 (it is presence-only, so neither reaches the log).  Only `Server.init` reads it (into `Config`). -/
 def detachWithoutOwnChange : Bool := true
 
+/-- ONE-LINE SWITCH.  `false` = tree before the repair: `preparePack` returns on `SyncModePushOnly` BEFORE
+it compares epochs, so after a compaction a push-only sync of a client of the old generation is
+answered ok (C10 finding F-C10-stale-pushonly-not-refused).  `true` = tree with
+`hooks/fix-c10-stale-pushonly-epoch.patch` (the epoch comparison comes first; the stale push-only sync
+is refused with `ErrEpochMismatch` like every other stale sync; the push-only cluster detach still
+passes through the detach/remove escape of `pullPack`).  Only `Server.init` reads it (into `Config`). -/
+def stalePushOnlyRefused : Bool := true
+
 abbrev ClientId := Nat
 abbrev DocId := Nat
 
@@ -141,6 +149,7 @@ structure Config where
   detachGuardFirst : Bool := Server.detachGuardFirst
   pushAfterRemoveDiscards : Bool := Server.pushAfterRemoveDiscards
   detachWithoutOwnChange : Bool := Server.detachWithoutOwnChange
+  stalePushOnlyRefused : Bool := Server.stalePushOnlyRefused
 deriving Repr, Inhabited
 
 structure Server where
@@ -501,7 +510,8 @@ def pullChangeInfos (s : Server) (f : Flight) : Checkpoint × List Row :=
 
 /-- `preparePack` -/
 def preparePackCore (s : Server) (f : Flight) : Except ErrKind Resp :=
-  if f.pushOnly then .ok { cp := ⟨f.pack.cp.serverSeq, f.cpAfterPush.clientSeq⟩ }
+  if s.cfg.stalePushOnlyRefused && epochDiffers f.info f.doc f.docInfo.epoch then .error .epochMismatch
+  else if f.pushOnly then .ok { cp := ⟨f.pack.cp.serverSeq, f.cpAfterPush.clientSeq⟩ }
   else if epochDiffers f.info f.doc f.docInfo.epoch then .error .epochMismatch
   else if f.initialSeq < f.pack.cp.serverSeq then .error .invalidServerSeq
   else if f.initialSeq - f.pack.cp.serverSeq < s.cfg.snapshotThreshold then
